@@ -28,7 +28,7 @@ AbsMod(base, body, exts, exps) == <<CPU>> \o Opt(exts # <<>>, EXT(exts)) \o <<OR
 RelMod(body, exts, exps) == <<RSEG, CPU>> \o Opt(exts # <<>>, EXT(exts)) \o body \o Opt(exps # <<>>, EXP(exps))
 
 Ga == <<103, 97>>  Gb == <<103, 98>>  Gc == <<103, 99>>  Uu == <<117, 117>>                      \* "ga" "gb" "gc" "uu"
-L(i) == <<108, 48 + i>>                                                                           \* "l1" ...
+Lc(i) == <<108, 48 + i>>                                                                           \* "l1" ...
 
 \* ---- a case -------------------------------------------------------------------------------------------------
 FilesOf(progs) == [i \in 1..Len(progs) |-> REncode(FileItems(progs[i]), <<65, 83>>)]
@@ -52,15 +52,15 @@ Refs1 == {REF8(Ga, k) : k \in {0, 5, 200}} \cup {REF16(opc, <<Ga>>, k) : opc \in
 UserA(r) == AbsMod(256, <<DB(<<1, 2>>), r, DB(<<3>>)>>, <<Ga>>, <<>>)
 DefGa(base) == AbsMod(base, <<DB(<<9>>), LAB(Ga), DB(<<8, 7>>)>>, <<>>, <<Ga>>)
 DefGaGb == AbsMod(512, <<DB(<<9>>), LAB(Ga), DB(<<8, 7>>), EQU(Gb, 4660)>>, <<>>, <<Ga, Gb>>)
-Plain(base) == AbsMod(base, <<DB(<<5, 5>>)>>, <<>>, <<>>)
-M3a == AbsMod(256, <<REF16(144, <<Ga>>, 0), REF8(Gb, 1), LAB(L(1)), REF16(2, <<L(1)>>, 0)>>, <<Ga, Gb>>, <<>>)
+PlainMod(base) == AbsMod(base, <<DB(<<5, 5>>)>>, <<>>, <<>>)
+M3a == AbsMod(256, <<REF16(144, <<Ga>>, 0), REF8(Gb, 1), LAB(Lc(1)), REF16(2, <<Lc(1)>>, 0)>>, <<Ga, Gb>>, <<>>)
 M3b == AbsMod(512, <<LAB(Ga), REF16(18, <<Gb>>, 2), DB(<<7>>)>>, <<Gb>>, <<Ga>>)
 M3c == AbsMod(768, <<EQU(Gb, 255), REF16(144, <<Ga, Gb>>, 0)>>, <<Ga>>, <<Gb>>)
 Perms3 == {<<1, 2, 3>>, <<1, 3, 2>>, <<2, 1, 3>>, <<2, 3, 1>>, <<3, 1, 2>>, <<3, 2, 1>>}
 \* several records in one module: ORG gap, reservation; references in front of and behind the gaps
 Multi == AbsMod(256, <<REF16(144, <<Ga>>, 1), ORG(300), LAB(Gb), REF8(Ga, 2), RES(2), REF16(18, <<Ga, Gb>>, 0), DB(<<1>>)>>, <<Ga>>, <<Gb>>)
 \* relocatable segments (RSEG in front of CPU: the record at address 0 is opened relocatable)
-R1 == RelMod(<<LAB(L(1)), REF16(144, <<L(2)>>, 0), REF16(18, <<Gb>>, 0), LAB(L(2)), DB(<<0>>), LAB(Ga)>>, <<Gb>>, <<Ga>>)
+R1 == RelMod(<<LAB(Lc(1)), REF16(144, <<Lc(2)>>, 0), REF16(18, <<Gb>>, 0), LAB(Lc(2)), DB(<<0>>), LAB(Ga)>>, <<Gb>>, <<Ga>>)
 R2 == RelMod(<<DB(<<34>>), LAB(Gb), REF16(144, <<Ga>>, 0), REF16(144, <<Gb>>, 1), REF8(Gb, 0)>>, <<Ga>>, <<Gb>>)
 R3 == RelMod(<<LAB(Gc), REF16(2, <<Gc>>, 0), DB(<<1, 2, 3>>), EXP(<<Gc>>), ASEG, ORG(1024), REF16(144, <<Ga>>, 0), REF16(144, <<Gb>>, 0)>>, <<Ga, Gb>>, <<>>)
 \* exports that never reach the file: the record open at the end of the program is empty
@@ -81,10 +81,10 @@ Families ==
         <<"double", <<DefGa(512), DefGa(768)>>>>, <<"double", <<DefGa(512), UserA(REF8(Ga, 0)), DefGa(768)>>>>,
         <<"double", <<DefGa(512), DefGaGb, M3c>>>>, <<"double-and-undefined", <<DefGa(512), DefGa(768), M3a>>>>,
         <<"same-file-twice", <<DefGa(512), DefGa(512)>>>>, <<"exported-twice", <<Twice, UserA(REF16(2, <<Ga>>, 0))>>>>}
-  \cup {<<"plain-module", fs>> : fs \in {<<Plain(768), UserA(REF16(144, <<Ga>>, 0)), DefGa(512)>>, <<UserA(REF16(144, <<Ga>>, 0)), Plain(768), DefGa(512)>>,
-                                         <<DefGa(512), Plain(768), UserA(REF16(144, <<Ga>>, 0))>>, <<DefGa(512), UserA(REF16(144, <<Ga>>, 0)), Plain(768)>>,
-                                         <<Plain(768)>>, <<Plain(768), Plain(1024)>>}}
-  \cup {<<"records", <<Multi, DefGa(512)>>>>, <<"records", <<DefGa(512), Multi>>>>, <<"records", <<DefGa(512), Multi, Plain(768)>>>>}
+  \cup {<<"plain-module", fs>> : fs \in {<<PlainMod(768), UserA(REF16(144, <<Ga>>, 0)), DefGa(512)>>, <<UserA(REF16(144, <<Ga>>, 0)), PlainMod(768), DefGa(512)>>,
+                                         <<DefGa(512), PlainMod(768), UserA(REF16(144, <<Ga>>, 0))>>, <<DefGa(512), UserA(REF16(144, <<Ga>>, 0)), PlainMod(768)>>,
+                                         <<PlainMod(768)>>, <<PlainMod(768), PlainMod(1024)>>}}
+  \cup {<<"records", <<Multi, DefGa(512)>>>>, <<"records", <<DefGa(512), Multi>>>>, <<"records", <<DefGa(512), Multi, PlainMod(768)>>>>}
   \cup {<<"rseg", <<R1, R2>>>>, <<"rseg", <<R2, R1>>>>, <<"rseg", <<R1, R2, R3>>>>, <<"rseg", <<R3, R2, R1>>>>, <<"rseg", <<R2, DefGa(512)>>>>,
         <<"rseg", <<DefGa(512), R2>>>>, <<"rseg", <<R1>>>>, <<"rseg", <<RelMod(<<DB(<<1, 2>>)>>, <<>>, <<>>), R2, DefGa(512)>>>>}
   \cup {<<"lost-export", <<le, UserA(REF16(144, <<Ga>>, 0))>>>> : le \in {LostExp, LostExp2}}
@@ -104,7 +104,7 @@ FamSelf == s = "gen" => LET o == AsmOut(c.progs, c.tag) IN
 Globals == {Ga, Gb, Gc}
 SimStmts(m, body) ==
   LET defd == {body[i].name : i \in {j \in 1..Len(body) : body[j].op \in {"label", "equ"}}}
-      names == Globals \cup {L(m)}
+      names == Globals \cup {Lc(m)}
   IN {DB(<<17 * m>>), DB(<<1, 2, 3>>), RES(3)}
      \cup {LAB(g) : g \in names \ defd}
      \cup {EQU(g, v) : g \in Globals \ defd, v \in {258}}
@@ -114,20 +114,19 @@ SimStmts(m, body) ==
 Finish(m, kind, body) ==
   LET defd == {body[i].name : i \in {j \in 1..Len(body) : body[j].op \in {"label", "equ"}}}
       used == UNION {{body[i].names[k] : k \in 1..Len(body[i].names)} : i \in {j \in 1..Len(body) : body[j].op = "ref"}}
-      b2 == IF L(m) \in used \ defd THEN Append(body, LAB(L(m))) ELSE body
+      b2 == IF Lc(m) \in used \ defd THEN Append(body, LAB(Lc(m))) ELSE body
       b3 == IF \E i \in 1..Len(b2) : b2[i].op \in {"db", "ref"} THEN b2 ELSE Append(b2, DB(<<m>>))
       exts == SetToSeq((used \cap Globals) \ defd)
       exps == SetToSeq(defd \cap Globals)
   IN IF kind = "rel" THEN RelMod(b3, exts, exps) ELSE AbsMod(256 * m, b3, exts, exps)
 SimInit == c = [bodies |-> <<<<>>>>, kinds |-> <<"abs">>, progs |-> <<>>, tag |-> "sim"] /\ s = 0
 SimNext ==
-  /\ s \in 0..12 /\ s' = s + 1
+  /\ s \in 0..11 /\ s' = s + 1
   /\ LET n == Len(c.bodies) IN
      IF s < 11 THEN
         \/ \E st \in SimStmts(n, c.bodies[n]) : Len(c.bodies[n]) < 6 /\ c' = [c EXCEPT !.bodies[n] = Append(@, st)]
         \/ \E k \in {"abs", "abs", "rel"} : n < 3 /\ c.bodies[n] # <<>> /\ c' = [c EXCEPT !.bodies = Append(@, <<>>), !.kinds = Append(@, k)]
-     ELSE IF s = 11 THEN c' = [c EXCEPT !.progs = [i \in 1..n |-> Finish(i, c.kinds[i], c.bodies[i])]]
-     ELSE UNCHANGED c
+     ELSE c' = [c EXCEPT !.progs = [i \in 1..n |-> Finish(i, c.kinds[i], c.bodies[i])]]
 SimSpec == SimInit /\ [][SimNext]_vars
 SimDump == (s = 12 /\ \A i \in 1..Len(c.progs) : Accepted(c.progs[i])) => PrintT(<<"BEH", ToJson(AsmOut(c.progs, "sim"))>>)
 =============================================================================
